@@ -3,6 +3,7 @@ C11 — class, dictionary and parser forms of a decay convert into each other lo
 Property theorems only; helper lemmas are in DL/Lemmas.
 -/
 import DL.Lemmas.Sort
+import DL.Lemmas.ChainRT
 namespace DL
 
 /-- what every `DecayMode` object satisfies: the daughters are kept in canonical order, the metadata
@@ -97,5 +98,100 @@ theorem C11_daughters_counts_drop (k : String) (n : Int) (hn : n ≤ 0) (c : Lis
   unfold ddOfCounts
   have : n.toNat = 0 := by omega
   simp [List.flatMap_cons, this]
+
+/-! ### decay chains: class form ↔ dictionary form -/
+
+/-- a well-formed mode has what the chain round trip needs: it survives `to_dict`/`from_dict`, and
+    its dictionary compares equal to itself (the metadata keys are pairwise different) -/
+theorem WFMode.good {m : Mode} (h : WFMode m) : GoodMode m := by
+  refine ⟨C11_mode m h, ?_⟩
+  obtain ⟨_, _, hrest⟩ := C11_mode_dict m h
+  obtain ⟨_, a, b, others, hm, h1, h2, h3, _⟩ := h
+  have hn : (dkeys m.mdat).Nodup := by
+    rw [hm]
+    simp only [dkeys, List.map_cons, List.nodup_cons, List.mem_cons, not_or]
+    exact ⟨⟨by decide, h1⟩, h2, h3⟩
+  unfold modeDictEq
+  rw [hrest, dictEqUnordered_refl m.mdat hn]
+  simp
+
+/-- a decay chain converted to its dictionary form and back: the same mother, every decay is an
+    original one, the mother decays, and the dictionary form of the result is the same dictionary
+    again — also when the same decaying particle occurs several times in the chain -/
+theorem C11_chain (c : DChain) (fuel : Nat) (t : Chain Info)
+    (hwf : ∀ k m, dget c.decays k = some m → WFMode m)
+    (ht : c.toDict fuel = .ok t) :
+    ∃ c', DChain.fromDict t = .ok c' ∧ c'.mother = c.mother ∧
+          (∀ k m, dget c'.decays k = some m → dget c.decays k = some m) ∧
+          dhas c'.decays c.mother = true ∧
+          c'.toDict fuel = .ok t := by
+  obtain ⟨c', h1, h2, h3, h4, h5, _⟩ :=
+    chain_roundtrip c fuel t (fun k m h => (hwf k m h).good) ht
+  exact ⟨c', h1, h2, h3, h4, h5⟩
+
+/-- nothing reachable is lost: every particle reached from the mother through decaying daughters
+    (`Reach`, DL/Lemmas/ChainRT.lean) has its decay in the rebuilt chain — and by `C11_chain` it is
+    the original decay -/
+theorem C11_chain_reachable (c : DChain) (fuel : Nat) (t : Chain Info)
+    (hwf : ∀ k m, dget c.decays k = some m → WFMode m)
+    (ht : c.toDict fuel = .ok t) :
+    ∃ c', DChain.fromDict t = .ok c' ∧
+          ∀ k, Reach c.decays c.mother k → dget c'.decays k = dget c.decays k ∧ dhas c'.decays k = true := by
+  obtain ⟨c', h1, _, h3, _, _, h6⟩ :=
+    chain_roundtrip c fuel t (fun k m h => (hwf k m h).good) ht
+  refine ⟨c', h1, fun k hr => ?_⟩
+  have hk := h6 k hr
+  obtain ⟨v, hv⟩ := (dhas_iff c'.decays k).1 hk
+  exact ⟨by rw [hv, h3 k v hv], hk⟩
+
+/-- non-vacuity: D0 -> pi0 pi0, pi0 -> gamma gamma (the decaying pi0 occurs twice) -/
+def exampleChain : DChain :=
+  { mother := "D0",
+    decays := [("D0", Mode.new "1.0" ["pi0", "pi0"] []), ("pi0", Mode.new "0.9" ["gamma", "gamma"] [])] }
+
+def examplePi0Dict : Chain Info :=
+  .mk "pi0" [({ bf := "0.9", rest := defaultMeta }, [.inl "gamma", .inl "gamma"])]
+def exampleChainDict : Chain Info :=
+  .mk "D0" [({ bf := "1.0", rest := defaultMeta }, [.inr examplePi0Dict, .inr examplePi0Dict])]
+
+theorem Mode.new_wf (bf : String) (l : List String) : WFMode (Mode.new bf l []) :=
+  ⟨⟨l, rfl⟩, jsonEmptyStr, jsonEmptyStr, [], rfl, by decide, by decide, by decide, by decide⟩
+
+theorem ssort_pair_same (a : String) : ssort [a, a] = [a, a] := by
+  unfold ssort
+  apply List.mergeSort_of_pairwise
+  simp [sleb]
+
+theorem exampleChain_wf : ∀ k m, dget exampleChain.decays k = some m → WFMode m := by
+  intro k m h
+  simp only [exampleChain, dget] at h
+  split at h
+  · obtain rfl := Option.some.inj h; exact Mode.new_wf _ _
+  · split at h
+    · obtain rfl := Option.some.inj h; exact Mode.new_wf _ _
+    · simp at h
+
+theorem exampleChain_toDict : exampleChain.toDict 3 = .ok exampleChainDict := by
+  have e1 : Mode.new "1.0" ["pi0", "pi0"] [] = { bf := "1.0", ds := ["pi0", "pi0"], mdat := defaultMeta } := by
+    simp only [Mode.new, ddOfList, ssort_pair_same]; rfl
+  have e2 : Mode.new "0.9" ["gamma", "gamma"] [] = { bf := "0.9", ds := ["gamma", "gamma"], mdat := defaultMeta } := by
+    simp only [Mode.new, ddOfList, ssort_pair_same]; rfl
+  unfold exampleChain
+  rw [e1, e2]
+  rfl
+
+example : (∀ k m, dget exampleChain.decays k = some m → WFMode m) ∧
+    exampleChain.toDict 3 = .ok exampleChainDict ∧
+    ∃ c', DChain.fromDict exampleChainDict = .ok c' ∧ c'.mother = "D0" ∧
+      dhas c'.decays "pi0" = true ∧ c'.toDict 3 = .ok exampleChainDict := by
+  refine ⟨exampleChain_wf, exampleChain_toDict, ?_⟩
+  obtain ⟨c', h1, h2, _, _, h5⟩ := C11_chain exampleChain 3 _ exampleChain_wf exampleChain_toDict
+  obtain ⟨c'', h1', h6⟩ := C11_chain_reachable exampleChain 3 _ exampleChain_wf exampleChain_toDict
+  rw [h1] at h1'
+  obtain rfl := Except.ok.inj h1'
+  refine ⟨c', h1, h2, ?_, h5⟩
+  refine (h6 "pi0" ?_).2
+  exact Reach.step (md := Mode.new "1.0" ["pi0", "pi0"] []) Reach.root rfl
+    (by simp [Mode.new, ddOfList, ssort_pair_same]) rfl
 
 end DL
